@@ -908,6 +908,24 @@ class Prover:
         res["detail"] = "real code agrees with the oracle on the model's inputs"
         return res
 
+    # ---- concrete boundary probes (witness search only) -------------------------------
+    def probe_real(self, name, sc, params_list, tries=2):
+        """Run a scenario on the real package only, at sizes the symbolic bound cannot reach
+        (derived from integer constants found in the source).  A difference from the oracle is a
+        replayed violation; agreement proves nothing and is recorded as such."""
+        self._cur = ("%s:%s" % (sc.__module__, sc.__name__), None)
+        n = 0
+        for params in params_list:
+            self._cur = (self._cur[0], jsonable(params))
+            for k in range(tries):
+                rp = self._replay(sc, params, {}, None, None, seed=7 + k)
+                n += 1
+                if rp.get("reproduced"):
+                    rp.pop("inputs", None)
+                    self.rec("%s/%s" % (name, "-".join("%s%s" % kv for kv in sorted(params.items()) if isinstance(kv[1], int))), "sat", replay=rp, via="concrete-boundary-probe", model=None)
+                    return
+        self.probes = getattr(self, "probes", 0) + n
+
     # ---- translator validation ---------------------------------------------------
     def _validate(self, name, sc, params, live, n):
         """random concrete inputs: evaluate the *symbolic terms* and compare with the real code"""
@@ -983,5 +1001,6 @@ class Prover:
             stubs=sorted(self.stubs),
             assumptions=sorted(self.assumptions),
             cross_checked=getattr(self, "cross_checked", 0),
+            probes=getattr(self, "probes", 0),
             hashes=dict(loader.HASHES),
         )
